@@ -276,6 +276,39 @@ def _setattr_idiom(n: ast.Expr):
     return n
 
 
+def _propagate_name_constants(tree: ast.Module) -> None:
+    """`name = "lit"` followed, in the same statement list and before any other assignment of `name`, by
+    `getattr(o, name)` / `setattr(o, name, v)`: the name argument is the literal (then attribute access / assignment by
+    the getattr / setattr idioms).  Typical after a table-driven loop was unrolled (`name = f"{kind}_{side}"`)."""
+    for holder in list(ast.walk(tree)):
+        for fld in ("body", "orelse", "finalbody"):
+            lst = getattr(holder, fld, None)
+            if not isinstance(lst, list) or not lst or not isinstance(lst[0], ast.stmt):
+                continue
+            env: dict[str, str] = {}
+            for i, st in enumerate(lst):
+                if isinstance(st, (ast.Expr, ast.Assign, ast.AnnAssign, ast.Return)) and env:
+                    changed = False
+                    for c in [x for x in ast.walk(st) if isinstance(x, ast.Call) and isinstance(x.func, ast.Name) and x.func.id in ("getattr", "setattr")
+                              and len(x.args) >= 2 and isinstance(x.args[1], ast.Name) and x.args[1].id in env]:
+                        c.args[1] = ast.copy_location(ast.Constant(value=env[c.args[1].id]), c.args[1])
+                        changed = True
+                    if changed:
+                        st2 = _FoldConst("\0", None).visit(st)  # getattr idiom inside the statement
+                        if isinstance(st2, ast.Expr):
+                            st2 = _setattr_idiom(st2)
+                        lst[i] = st = st2
+                # update the environment
+                stored = {x.id for x in ast.walk(st) if isinstance(x, ast.Name) and isinstance(x.ctx, (ast.Store, ast.Del))}
+                for n_ in stored:
+                    env.pop(n_, None)
+                if isinstance(st, ast.Assign) and len(st.targets) == 1 and isinstance(st.targets[0], ast.Name) \
+                        and isinstance(st.value, ast.Constant) and isinstance(st.value.value, str) and st.value.value.isidentifier():
+                    env[st.targets[0].id] = st.value.value
+                if isinstance(st, (ast.FunctionDef, ast.ClassDef, ast.Global, ast.Nonlocal)):
+                    env.clear()
+
+
 def _own_field_loops(tree: ast.Module) -> None:
     """In a method of a `@dataclass(slots=True)` class, `for name in self.__slots__:` iterates over the names of the
     fields the class itself declares, in order of declaration (inherited slots belong to the bases): the loop is given the
@@ -1018,6 +1051,10 @@ def normalise_tree(tree: ast.Module) -> ast.Module:
         tree = _TupleComps().visit(tree)
     except Exception:  # noqa: BLE001 - optional normal form
         pass
+    try:
+        _propagate_name_constants(tree)
+    except Exception:  # noqa: BLE001 - optional normal form
+        pass
     tree = _Idioms().visit(tree)
     if INLINE_PROCEDURES:
         try:
@@ -1026,6 +1063,13 @@ def normalise_tree(tree: ast.Module) -> ast.Module:
             pass
     try:
         _inline_statement_helpers(tree)
+    except Exception:  # noqa: BLE001 - optional normal form
+        pass
+    try:
+        # what became constant by inlining (`f"{kind}_lower"` with kind bound to a literal at the call): fold, propagate
+        # into getattr / setattr, apply the attribute idioms
+        tree = _FoldConst("\0", None).visit(tree)
+        _propagate_name_constants(tree)
     except Exception:  # noqa: BLE001 - optional normal form
         pass
     for n in list(ast.walk(tree)):
